@@ -1045,6 +1045,8 @@ def simulate(script: dict, client_fn: Any = None) -> Run:
     try:
         main = loop.create_task(_main(world, client_fn), context=world.harness_ctx)
         try:
+            if script["config"].get("entry") == "cli":
+                _run_cli_worker(world)
             loop.run_until_complete(main)
             run.end = "done"
         except Quiescent:
@@ -1077,6 +1079,77 @@ def simulate(script: dict, client_fn: Any = None) -> Run:
             if gc_was:
                 gc.enable()
     return run
+
+
+def _run_cli_worker(world: World) -> None:
+    """Worker 0 is started the way `taskiq worker` starts a child process: the real taskiq.cli.worker.run.start_listen(args),
+    with its imports, event-loop factory, thread pool and signal registration redirected to the simulator. Shutdown is
+    requested by delivering a signal to the handler start_listen registered."""
+    import signal as real_signal
+    import taskiq.cli.worker.run as wr
+    from taskiq.cli.worker.args import WorkerArgs
+    cfg = world.config
+    loop = world.loop
+    node = "w0"
+    ctx = contextvars.copy_context()
+    ctx.run(NODE.set, node)
+    info: Dict[str, Any] = {"gen": 0, "node": node, "alive": True, "stopped": False, "returned": False, "ctx": ctx, "cli": True}
+    world.workers[0] = info
+    handlers: Dict[int, Any] = {}
+
+    class CliRecReceiver(RecReceiver):
+        async def listen(self, finish_event: Any) -> None:  # type: ignore[override]
+            info["receiver"] = self
+            world.rec("listen_start", None, w=0, gen=0)
+            try:
+                await super().listen(finish_event)
+                info["returned"] = True
+                world.rec("listen_return", None, w=0, gen=0)
+            except BaseException as exc:  # noqa: BLE001
+                info["returned"] = True
+                world.rec("listen_raise", None, w=0, gen=0, exc=type(exc).__name__)
+                raise
+
+    def imp(path: str) -> Any:
+        if path == "sim:broker":
+            br = make_endpoint(world, node, worker=0, gen=0)
+            info["broker"] = br
+            return br
+        CliRecReceiver.world = world
+        return CliRecReceiver
+
+    def deliver(name: str) -> None:
+        signum = int(getattr(real_signal, name))
+        world.rec("signal", None, sig=name, handled=signum in handlers)
+        if signum in handlers:
+            handlers[signum](signum, None)
+
+    info["deliver_signal"] = deliver
+    fake_signal = types.SimpleNamespace(SIGINT=real_signal.SIGINT, SIGTERM=real_signal.SIGTERM, SIGHUP=real_signal.SIGHUP,
+                                        signal=lambda signum, handler: handlers.__setitem__(int(signum), handler))
+    saved = {n: getattr(wr, n) for n in ("import_object", "import_tasks", "signal", "ThreadPoolExecutor", "uvloop")}
+    saved_new_loop = asyncio.new_event_loop
+    wr.import_object = imp  # type: ignore[assignment]
+    wr.import_tasks = lambda *a, **k: None  # type: ignore[assignment]
+    wr.signal = fake_signal  # type: ignore[assignment]
+    wr.ThreadPoolExecutor = lambda max_workers=None: SimExecutor(world)  # type: ignore[assignment,misc]
+    wr.uvloop = None  # type: ignore[assignment]
+    asyncio.new_event_loop = lambda: loop  # type: ignore[assignment]
+    try:
+        args = WorkerArgs(
+            broker="sim:broker", modules=[], receiver="sim:receiver", configure_logging=False,
+            no_parse=not cfg.get("validate_params", True), max_async_tasks=cfg.get("A") or 0, max_prefetch=cfg.get("P", 0),
+            no_propagate_errors=not cfg.get("propagate", True),
+            ack_type=AcknowledgeType(cfg["ack_type"]) if cfg.get("ack_type") else AcknowledgeType.WHEN_SAVED,
+            max_tasks_per_child=cfg.get("N"), wait_tasks_timeout=cfg.get("W"), shutdown_timeout=5, workers=1,
+        )
+        ctx.run(wr.start_listen, args)
+    finally:
+        for n, v in saved.items():
+            setattr(wr, n, v)
+        asyncio.new_event_loop = saved_new_loop  # type: ignore[assignment]
+        info["returned"] = True
+        world.on_event("listen_return")
 
 
 def start_worker(world: World, w: int) -> None:
@@ -1122,12 +1195,16 @@ def start_worker(world: World, w: int) -> None:
 
 def do_stop(world: World, w: int) -> None:
     info = world.workers.get(w)
-    if not info or not info["alive"] or info["stopped"] or "finish" not in info:
+    if not info or not info["alive"] or info["stopped"] or ("finish" not in info and not info.get("cli")):
         return
     info["stopped"] = True
     world.fired("stop_event")
     world.rec("stop_set", None, w=w, gen=info["gen"])
-    info["finish"].set()
+    if info.get("cli"):
+        # `taskiq worker` child process: shutdown is requested by a signal; the real handler sets the shutdown event
+        info["deliver_signal"](world.config.get("stop_signal", "SIGINT"))
+    else:
+        info["finish"].set()
 
 
 def do_crash(world: World, w: int, redeliver_us: int = 1000) -> None:
@@ -1248,8 +1325,9 @@ async def _main(world: World, client_fn: Any) -> None:
         world.workers[0] = {"gen": 0, "node": "client", "alive": True, "stopped": True, "returned": True}
     else:
         client = make_endpoint(world, "client")
-        for w in range(cfg.get("workers", 1)):
-            start_worker(world, w)
+        if cfg.get("entry") != "cli":
+            for w in range(cfg.get("workers", 1)):
+                start_worker(world, w)
     world.extra["client"] = client
     # sends
     for m in script.get("messages", []):
